@@ -228,7 +228,8 @@ class C05:
     judge_module = 'Run.JudgeC05'
     rule = ('one case = one curve x distance x order with the whole chain rdp_fixed(points, k), k = 0..n+1; curves: 60% tie-rich '
             '(symmetric / periodic / V-shaped / flat / collinear-run integer curves on a unit grid), 40% the shared families; '
-            'incl. jagged non-monotone integer zigzags where points project outside the chord; 2 distances x 3 orders round-robin; non-trivial = the chain has >= 3 distinct sizes; distinct by (points, distance, order)')
+            'same-object stream: 60 (600 thorough) cases interleave the chains of 2-3 configurations (every other one also a second curve refilled in place) '
+            'call by call on ONE ndarray object, tables from fresh copies; incl. jagged non-monotone integer zigzags where points project outside the chord; 2 distances x 3 orders round-robin; non-trivial = the chain has >= 3 distinct sizes; distinct by (points, distance, order)')
     assumptions = ['length/min_points are non-negative integers (the property quantifies over k in 0..n+1)',
                    'shape of the distance oracle: len(distance_points(points[l:r], ...)) = r - l (checked on every table)',
                    'greedy clause: priorities present are non-NaN (Tier O); cases with a NaN priority are judged on size/nesting/farthest only',
@@ -253,6 +254,17 @@ class C05:
             fam, pts = any_curve(rng, n)
             d, o = cfg[i % len(cfg)]
             cases.append({'points': pts, 'family': fam, 'dist': d, 'order': o})
+        # same-object stream: the chains of 2-3 configurations (and, every other case, of a second curve written into the same
+        # buffer in place) interleaved call by call on ONE array object
+        nseq = {'quick': 60, 'search': 30, 'thorough': 600}.get(tier, 60)
+        for i in range(nseq):
+            n = rng.choice([3, 4, 5, 6, 7, 8, 9])
+            fam, pts = any_curve(rng, n)
+            curves = [pts]
+            if i % 2:
+                curves.append(any_curve(rng, n)[1])
+            cfgs = rng.sample(cfg, rng.choice([2, 3]))
+            cases.append({'kind': 'seq', 'curves': curves, 'configs': [list(x) for x in cfgs], 'family': fam, 'sseed': rng.randrange(1 << 30)})
         return cases
 
     def warmup(self):
@@ -262,10 +274,23 @@ class C05:
         for o in rdp.Order:
             rdp.rdp_fixed(p, 4, rdp.Distance.shortest, o)
 
+    @staticmethod
+    def _plan(c):
+        """the (curve, distance, order) parts of a case and the order in which the calls are issued on the ONE array object"""
+        if c.get('kind') == 'seq':
+            parts = [(ci, d, o) for ci in range(len(c['curves'])) for (d, o) in c['configs']]
+            n = len(c['curves'][0])
+            calls = [(pi, k) for pi in range(len(parts)) for k in range(n + 2)]
+            random.Random(c['sseed']).shuffle(calls)
+            return c['curves'], parts, calls
+        n = len(c['points'])
+        return [c['points']], [(0, c['dist'], c['order'])], [(0, k) for k in range(n + 2)]
+
     def on_timeout(self, c):
         c = dict(c)
-        c['outs'] = [None] * (len(c['points']) + 2)
-        c['dt'], c['ct'], c['rt'], c['ot'] = [], [], [], []
+        curves, parts, _ = self._plan(c)
+        c['parts'] = [{'points': curves[ci], 'dist': d, 'order': o, 'outs': [None] * (len(curves[ci]) + 2),
+                       'dt': [], 'ct': [], 'rt': [], 'ot': []} for ci, d, o in parts]
         c['timeout'] = True
         return c
 
@@ -274,39 +299,84 @@ class C05:
         import kneeliverse.rdp as rdp
         import kneeliverse.linear_fit as lf
         c = dict(c)
-        pts = np.array(c['points'], dtype=float)
-        n = len(pts)
-        D, O = rdp.Distance[c['dist']], rdp.Order[c['order']]
-        outs = []
-        for k in range(n + 2):
-            st, out = call(rdp.rdp_fixed, pts, k, D, O)
-            outs.append(as_out(st, out))
-        c['outs'] = outs
-        sets = [o[0] for o in outs if o is not None]
-        c['dt'], c['ct'], c['rt'] = build_tables(rdp, lf, pts, c['dist'], c['order'], sets, n <= NFULL)
-        c['ot'] = observed_scores(rdp, lf, pts, c['dist'], c['order'], [o[0] if o is not None else None for o in outs])
+        curves, parts, calls = self._plan(c)
+        # ONE array object serves every call of the case (all k, all configurations; other curves are written into it in place)
+        buf = np.array(curves[0], dtype=float)
+        cur = 0
+        outs = [[None] * (len(curves[ci]) + 2) for ci, _, _ in parts]
+        for pi, k in calls:
+            ci, d, o = parts[pi]
+            if ci != cur:
+                buf[:] = np.array(curves[ci], dtype=float)
+                cur = ci
+            st, out = call(rdp.rdp_fixed, buf, k, rdp.Distance[d], rdp.Order[o])
+            outs[pi][k] = as_out(st, out)
+        # oracle tables: from a fresh copy of the curve, through the primitives only
+        res = []
+        for pi, (ci, d, o) in enumerate(parts):
+            fresh = np.array(curves[ci], dtype=float)
+            n = len(fresh)
+            sets = [x[0] for x in outs[pi] if x is not None]
+            dt, ct, rt = build_tables(rdp, lf, fresh, d, o, sets, n <= NFULL and c.get('kind') != 'seq')
+            ot = observed_scores(rdp, lf, fresh, d, o, [x[0] if x is not None else None for x in outs[pi]])
+            res.append({'points': curves[ci], 'dist': d, 'order': o, 'outs': outs[pi], 'dt': dt, 'ct': ct, 'rt': rt, 'ot': ot})
+        c['parts'] = res
         return c
 
+    @staticmethod
+    def _emit_part(p):
+        n = len(p['points'])
+        return '%s %s %s %s %s %s %s %s' % (cnat(n), CORD[p['order']], cpts(p['points']), cdtab(p['dt']), cptab(p['ct']), cptab(p['rt']),
+                                             cptab(p['ot']), clist([cout(o) for o in p['outs']]))
+
     def emit(self, c):
-        n = len(c['points'])
-        return 'CChain %s %s %s %s %s %s %s' % (cnat(n), CORD[c['order']], cdtab(c['dt']), cptab(c['ct']), cptab(c['rt']),
-                                                 cptab(c['ot']), clist([cout(o) for o in c['outs']]))
+        if c.get('kind') == 'seq':
+            return 'CSeq %s' % clist(['CH ' + self._emit_part(p) for p in c['parts']])
+        return 'CChain ' + self._emit_part(c['parts'][0])
 
     def nontrivial_key(self, c):
-        sizes = {len(o[0]) for o in c['outs'] if o is not None}
-        if len(sizes) >= 3:
-            return (str(c['points']), c['dist'], c['order'])
-        return None
+        keys = []
+        for p in c['parts']:
+            sizes = {len(o[0]) for o in p['outs'] if o is not None}
+            if len(sizes) >= 3:
+                keys.append((str(p['points']), p['dist'], p['order']))
+        return (c.get('kind', 'one'), tuple(keys)) if keys else None
 
     def classify(self, c):
-        n = len(c['points'])
-        sc = [v for _, v in c.get('ot', [])]
-        return {'n': n if n <= 12 else (n // 8) * 8, 'family': c.get('family', '?'), 'config': c['dist'] + '/' + c['order'],
+        p0 = c['parts'][0]
+        n = len(p0['points'])
+        sc = [v for p in c['parts'] for _, v in p.get('ot', [])]
+        return {'kind': c.get('kind', 'one') + ('/refill' if len(c.get('curves', [])) > 1 else ''),
+                'n': n if n <= 12 else (n // 8) * 8, 'family': c.get('family', '?'),
+                'config': (p0['dist'] + '/' + p0['order']) if c.get('kind') != 'seq' else 'seq x%d' % len(c['parts']),
                 'nan_score': any(v != v for v in sc), 'tied_scores': len(set(sc)) < len(sc), 'scores_observed': min(len(sc), 20),
-                'exceptions': sum(1 for o in c['outs'] if o is None)}
+                'exceptions': sum(1 for p in c['parts'] for o in p['outs'] if o is None)}
 
     def shrink(self, c):
         out = []
+        if c.get('kind') == 'seq':
+            base = {k: c[k] for k in ('kind', 'curves', 'configs', 'sseed', 'family')}
+            if len(c['configs']) > 1:
+                for j in range(len(c['configs'])):
+                    d = dict(base)
+                    d['configs'] = c['configs'][:j] + c['configs'][j + 1:]
+                    out.append(d)
+            if len(c['curves']) > 1:
+                for j in range(len(c['curves'])):
+                    d = dict(base)
+                    d['curves'] = c['curves'][:j] + c['curves'][j + 1:]
+                    out.append(d)
+            n = len(c['curves'][0])
+            if n > 2:
+                for j in range(n):
+                    d = dict(base)
+                    d['curves'] = [cv[:j] + cv[j + 1:] for cv in c['curves']]
+                    out.append(d)
+            for s in range(2):
+                d = dict(base)
+                d['sseed'] = (c['sseed'] * 31 + s + 1) % (1 << 30)
+                out.append(d)
+            return out
         pts = c['points']
         base = {k: c[k] for k in ('points', 'family', 'dist', 'order')}
         if len(pts) > 2:
@@ -317,9 +387,15 @@ class C05:
         return out
 
     def sample(self, c):
-        return {'points': c['points'], 'dist': c['dist'], 'order': c['order'], 'chain': [o[0] if o else None for o in c['outs']]}
+        return {'kind': c.get('kind', 'one'),
+                'parts': [{'points': p['points'], 'dist': p['dist'], 'order': p['order'], 'chain': [o[0] if o else None for o in p['outs']]}
+                          for p in c['parts'][:2]]}
 
     def describe(self, c):
+        if c.get('kind') == 'seq':
+            curves, parts, calls = self._plan(c)
+            return ('ONE array object buf = np.array(curves[0]) with curves=%s; calls in this order (refill buf[:] = curves[i] when the curve changes): %s'
+                    % (curves, [('rdp_fixed', 'curve %d' % parts[pi][0], k, parts[pi][1], parts[pi][2]) for pi, k in calls]))
         return ('[kneeliverse.rdp.rdp_fixed(np.array(%s), k, rdp.Distance.%s, rdp.Order.%s) for k in range(%d)]'
                 % (c['points'], c['dist'], c['order'], len(c['points']) + 2))
 
